@@ -1,4 +1,4 @@
-From Verif Require Import Lib.Base Registry.Model Registry.Lemmas Registry.Proofs Gen.RegistryConsts.
+From Verif Require Import Lib.Base Registry.Model Registry.Lemmas Registry.Proofs Registry.ProofsRt Registry.ProofsAddr Gen.RegistryConsts.
 
 (* G: the SetNode of the CURRENT source performs all key-map removals before the
    first insertion (read from the source by harness/cmd/gen registryconsts) ... *)
@@ -202,3 +202,112 @@ Theorem claims_mirror :
                    aget id (s_nodes (run addr fixed maxexp debond ops st0)) = Some n /\ n_ent n = e)).
 Proof. exact claims_mirror_hist. Qed.
 Print Assumptions claims_mirror.
+
+(* ---- growth round: runtimes, consensus-address index, claim kinds, exactness ---- *)
+
+(* A runtime descriptor (active or suspended) changes only by a RegisterRuntime
+   whose caller is the staking account controlling the EXISTING descriptor
+   (entity governance: the owning entity; runtime governance: the runtime's own
+   account), or the new descriptor's controlling account if the runtime is new;
+   the kind is kept and governance may only go from entity to runtime. *)
+Theorem authority_runtime :
+  forall (addr : N -> N) (fixed : bool) (maxexp debond : N) s o s' r,
+    tx_op o = true -> Inv_rt s -> step addr fixed maxexp debond s o = (COk, s') ->
+    any_runtime s' r <> any_runtime s r ->
+    exists caller rt,
+      o = TRegRuntime caller rt /\ r_id rt = r /\ any_runtime s' r = Some rt /\
+      (r_gov rt = 1 \/ r_gov rt = 2) /\
+      match any_runtime s r with
+      | Some old => rt_acct old = Some caller /\ r_kind old = r_kind rt /\
+                    (r_gov old = r_gov rt \/ (r_gov old = 1 /\ r_gov rt = 2))
+      | None => rt_acct rt = Some caller
+      end.
+Proof. exact authority_runtime. Qed.
+Print Assumptions authority_runtime.
+
+Theorem runtime_invariant_along_histories :
+  forall (addr : N -> N) (fixed : bool) (maxexp debond : N) (ops : list op) s,
+    Inv_rt s -> forallb tx_op ops = true -> Inv_rt (run addr fixed maxexp debond ops s).
+Proof. exact run_rt. Qed.
+Print Assumptions runtime_invariant_along_histories.
+
+Theorem wrong_runtime_caller_rejected :
+  forall (addr : N -> N) (fixed : bool) (maxexp debond : N) s caller rt,
+    (match any_runtime s (r_id rt) with
+     | Some old => rt_acct old <> Some caller
+     | None => rt_acct rt <> Some caller
+     end) ->
+    fst (step addr fixed maxexp debond s (TRegRuntime caller rt)) <> COk /\
+    snd (step addr fixed maxexp debond s (TRegRuntime caller rt)) = s.
+Proof. exact wrong_runtime_caller_rejected. Qed.
+Print Assumptions wrong_runtime_caller_rejected.
+
+(* After every history from the initial state, HasEntityRuntimes(e) holds exactly
+   when some runtime record (active or suspended) names e as its entity. *)
+Theorem runtime_by_entity_mirrors_records :
+  forall (addr : N -> N) (fixed : bool) (maxexp debond : N) (ops : list op) e,
+    forallb tx_op ops = true ->
+    (has_entity_runtimes (run addr fixed maxexp debond ops st0) e = true <->
+     exists r rt, any_runtime (run addr fixed maxexp debond ops st0) r = Some rt /\ r_ent rt = e).
+Proof. exact rt_by_entity_hist. Qed.
+Print Assumptions runtime_by_entity_mirrors_records.
+
+(* claims_mirror, runtime part: account a (2e = entity e, 2r+1 = runtime r) holds
+   the claim of runtime r exactly when r is registered and a controls it. *)
+Theorem claims_mirror_runtimes :
+  forall (addr : N -> N) (fixed : bool) (maxexp debond : N) (ops : list op) a r,
+    forallb tx_op ops = true ->
+    (pmem (a, r) (s_rtclaims (run addr fixed maxexp debond ops st0)) = true <->
+     exists rt, any_runtime (run addr fixed maxexp debond ops st0) r = Some rt /\ rt_acct rt = Some a).
+Proof. exact rt_claims_hist. Qed.
+Print Assumptions claims_mirror_runtimes.
+
+(* claims_mirror, threshold kinds: the kinds stored with the claim of node id
+   are those implied by the roles and runtimes of its current record. *)
+Theorem claims_mirror_node_kinds :
+  forall (addr : N -> N) (fixed : bool) (maxexp debond : N) (ops : list op) id,
+    forallb tx_op ops = true ->
+    aget id (s_nthr (run addr fixed maxexp debond ops st0)) =
+    option_map node_kinds (aget id (s_nodes (run addr fixed maxexp debond ops st0))).
+Proof. exact node_claim_kinds_hist. Qed.
+Print Assumptions claims_mirror_node_kinds.
+
+(* Along every history, an entity that a runtime record names as owner cannot deregister. *)
+Theorem entity_not_removable_while_owning_runtime_records :
+  forall (addr : N -> N) (fixed : bool) (maxexp debond : N) (ops : list op) e r rt,
+    forallb tx_op ops = true ->
+    any_runtime (run addr fixed maxexp debond ops st0) r = Some rt -> r_ent rt = e ->
+    fst (step addr fixed maxexp debond (run addr fixed maxexp debond ops st0) (TDeregEntity e)) <> COk /\
+    snd (step addr fixed maxexp debond (run addr fixed maxexp debond ops st0) (TDeregEntity e))
+    = run addr fixed maxexp debond ops st0.
+Proof. exact dereg_hist. Qed.
+Print Assumptions entity_not_removable_while_owning_runtime_records.
+
+(* The consensus-address index mirrors the node records after every history of
+   the current source (removals-first SetNode), or the address function collides. *)
+Theorem cons_addr_index_mirrors_records :
+  forall (addr : N -> N) (maxexp debond : N) (ops : list op),
+    forallb tx_op ops = true ->
+    AD_ok addr (run addr true maxexp debond ops st0) \/ collision addr.
+Proof.
+  exact (fun addr maxexp debond ops H =>
+           run_ad addr maxexp debond ops st0 Inv_st0 (ad_st0 addr) H).
+Qed.
+Print Assumptions cons_addr_index_mirrors_records.
+
+Theorem node_by_consensus_address_correct :
+  forall (addr : N -> N) s,
+    IDS (s_nodes s) -> AD_ok addr s ->
+    (forall id n, aget id (s_nodes s) = Some n -> node_by_addr s (addr (n_cons n)) = Some n) /\
+    (forall a n, node_by_addr s a = Some n -> addr (n_cons n) = a /\ aget (n_id n) (s_nodes s) = Some n).
+Proof. exact node_by_addr_correct. Qed.
+Print Assumptions node_by_consensus_address_correct.
+
+(* For the record: the side condition of Inv_index_holds_without_exchange is exact. *)
+Theorem exchange_condition_exact :
+  forall (addr : N -> N) maxexp debond s txs n signers ok old,
+    Inv_index s -> aget (n_id n) (s_nodes s) = Some old -> exchange old n = true ->
+    fst (step addr false maxexp debond s (TRegNode txs n signers ok)) = COk ->
+    ~ Inv_index (snd (step addr false maxexp debond s (TRegNode txs n signers ok))).
+Proof. exact exchange_breaks_inv. Qed.
+Print Assumptions exchange_condition_exact.
